@@ -276,7 +276,8 @@ theorem cache_transparent {κ ν : Type} [BEq κ] [LawfulBEq κ] (f : κ → ν)
   | cons k ks ih =>
       intro cache h
       obtain ⟨h1, h2⟩ := cache_sound f cache h k
-      simp only [cachedCalls, List.map_cons, h1, ih _ h2]
+      show (cachedCall f cache k).1 :: cachedCalls f (cachedCall f cache k).2 ks = f k :: ks.map f
+      rw [h1, ih _ h2]
 
 /-! ### non-vacuity: concrete processes meet the hypotheses, and the conclusions are not trivially true -/
 
